@@ -48,6 +48,61 @@ type unionCase struct {
 	Empty   [][4]float64 `json:"empty"`              // cx, cy, gap, size: Intersect2D of two disjoint boxes at cx-gap and cx+gap (no solid point in its box)
 	InnerK  float64      `json:"inner_k,omitempty"`  // nested == 2: the k of the inner PolyMin (0: 0.25; scaled layouts scale it with the scene)
 	Rev     bool         `json:"reversed,omitempty"` // the operands (circles, boxes, empty in this order) are passed in reverse order
+	// absent operands: Nils[i] nil arguments are passed before operand i of the (outer) Union2D call, entries at and
+	// beyond the number of operands after the last one ("strip out any nils": the union denotes the same shape)
+	Nils []int `json:"nils,omitempty"`
+}
+
+// withNils returns the argument list: the operands with the nil arguments of the pattern in place
+func withNils(ops []sdf.SDF2, nils []int) []sdf.SDF2 {
+	var args []sdf.SDF2
+	for i, o := range ops {
+		if i < len(nils) {
+			for k := 0; k < nils[i]; k++ {
+				args = append(args, nil)
+			}
+		}
+		args = append(args, o)
+	}
+	for i := len(ops); i < len(nils); i++ {
+		for k := 0; k < nils[i]; k++ {
+			args = append(args, nil)
+		}
+	}
+	return args
+}
+
+// nilPattern: where the absent operands sit among n operands (class k): leading, trailing, one interior
+// gap, every gap, a random subset of the gaps with runs of 1..3
+func nilPattern(rng *Rng, k, n int) ([]int, string) {
+	g := make([]int, n+1)
+	switch k % 6 {
+	case 0:
+		g[0] = rng.Range(1, 2)
+		return g, "leading"
+	case 1:
+		g[n] = rng.Range(1, 2)
+		return g, "trailing"
+	case 2:
+		g[rng.Range(1, n-1)] = rng.Range(1, 2)
+		return g, "interior"
+	case 3:
+		for i := range g {
+			g[i] = 1
+		}
+		return g, "every-gap"
+	}
+	tot := 0
+	for i := range g {
+		if rng.Intn(2) == 0 {
+			g[i] = rng.Range(1, 3)
+			tot += g[i]
+		}
+	}
+	if tot == 0 {
+		g[rng.Range(0, n-1)] = 2
+	}
+	return g, "several"
 }
 
 func rat(x float64) *big.Rat { return new(big.Rat).SetFloat64(x) }
@@ -353,7 +408,11 @@ func check(c *Ctx, r *Report) error {
 			ops = append([]sdf.SDF2{inner}, ops[2:]...)
 			terms = append([]string{fmt.Sprintf("((%s,%s,%s,%s), %s)", CF(bbi.Min.X), CF(bbi.Min.Y), CF(bbi.Max.X), CF(bbi.Max.Y), CF(inner.Evaluate(p)))}, terms[2:]...)
 		}
-		un := sdf.Union2D(ops...).(*sdf.UnionSDF2)
+		args := ops
+		if len(u.Nils) > 0 {
+			args = withNils(ops, u.Nils)
+		}
+		un := sdf.Union2D(args...).(*sdf.UnionSDF2)
 		bl := "None"
 		if u.Blend > 0 {
 			un.SetMin(sdf.PolyMin(u.Blend))
@@ -405,6 +464,23 @@ func check(c *Ctx, r *Report) error {
 		if u.Blend > 0 && (ge < 0) != (gs < 0) {
 			r.Violate(key, fmt.Sprintf("Union2D with PolyMin(%v): pruned Evaluate = %v and exhaustive EvaluateSlow = %v differ in sign", u.Blend, ge, gs), u)
 		}
+		if len(args) != len(ops) {
+			// the twin: the same call without the nil arguments answers bit for bit the same, has the same box
+			tw := sdf.Union2D(ops...).(*sdf.UnionSDF2)
+			if u.Blend > 0 {
+				tw.SetMin(sdf.PolyMin(u.Blend))
+			}
+			te, ts := tw.Evaluate(p), tw.EvaluateSlow(p)
+			same := func(a, b float64) bool {
+				return math.Float64bits(a) == math.Float64bits(b) || (math.IsNaN(a) && math.IsNaN(b))
+			}
+			if !same(ge, te) || !same(gs, ts) {
+				r.Violate(key, fmt.Sprintf("Union2D with nil arguments (pattern %v): Evaluate = %v, EvaluateSlow = %v, but the same call without them gives %v, %v", u.Nils, ge, gs, te, ts), u)
+			}
+			if un.BoundingBox() != tw.BoundingBox() {
+				r.Violate(key, fmt.Sprintf("Union2D with nil arguments (pattern %v): bounding box %v, without them %v", u.Nils, un.BoundingBox(), tw.BoundingBox()), u)
+			}
+		}
 		if id%97 == 0 {
 			r.Sample(map[string]interface{}{"kind": "union", "case": u, "evaluate": ge, "slow": gs})
 		}
@@ -428,6 +504,28 @@ func check(c *Ctx, r *Report) error {
 			union(fmt.Sprintf("%s/n%d", stratum, n), u)
 		}
 	}
+	// absent operands: the same generators (layouts, points, blends, nesting, empty operands, threshold counts)
+	// with nil arguments in every position of the call; pruned = exhaustive = fold = the call without the nils
+	{
+		nrng := NewRng(c.Seed ^ 0x9115a465)
+		for k := 0; k < TierN(c.Tier, 600, 12000, 3000); k++ {
+			n := nrng.Range(2, 7)
+			if k%50 == 49 {
+				n = thresholdCounts[2+nrng.Intn(len(thresholdCounts)-2)]
+			}
+			u, stratum := genUnion(nrng, k/6, n)
+			m := len(u.Circles) + len(u.Boxes) + len(u.Empty)
+			if u.Nested > 0 && m >= 3 {
+				m--
+			}
+			if m < 2 {
+				continue
+			}
+			var pat string
+			u.Nils, pat = nilPattern(nrng, k, m)
+			union("nil-args/"+pat+"/"+stratum, u)
+		}
+	}
 	// exact seams: query points on the boundary of one operand (value exactly 0) inside the box of another (seam.go)
 	for _, sc := range seamUnions(NewRng(c.Seed^0x5ea3), TierN(c.Tier, 48, 800, 200), TierN(c.Tier, 8, 16, 12)) {
 		union(sc.stratum, sc.u)
@@ -447,7 +545,7 @@ func check(c *Ctx, r *Report) error {
 			return err
 		}
 	}
-	r.Rule = "boxes x points covering all 5x5(x5) position classes per axis (below / on min / inside / on max / above; degenerate boxes included) in a dyadic-exact regime (results compared EXACTLY with the rational clamp specification) and a rounding regime (relative 1e-12); Interval.Overlap on every ordering of endpoints in {0,1,2,3} and (scales.go) on pairs whose facing end points differ by 0, +-1/2/3/16 ulps, +-1e-15..1e-9 relative and absolute, +-25% and +300%, at every decade 1e-12..1e12: adjacent (positive, mirrored negative, around +0/-0 with denormal gaps), point intervals, nested, nearly identical, and pairs produced by Box2/Box3.MinMaxDist2 of a near and a farther (also flat / point) box with the same perturbations; judged in both orders by the exact rational share-a-value specification here and again inside coqc (float model, rational model, max-lo <= min-hi); MinMaxDist2 also at scales 2^-40..2^40 (dyadic-exact: equal to the rational clamp specification) and 1e-12..1e12 and one scale per axis, with the position classes k ulps below/above min/max next to the five classes (a true distance of 0 must be reported as 0); unions of 2..7 translated circles/boxes (nested, overlapping, far apart) at random / dyadic / far / box-corner points with the plain minimum (pruned must equal exhaustive exactly) and PolyMin(k) for k in 0.01..1000 (same sign). the same generators with 63, 64, 65, 100 and 300 operands (sizes an implementation may treat differently). union/overlap strata: two or more evaluations of ONE union overlapping in time, made deterministic with operands defined in the harness (harness/concshapes/probe.go): re-entrant (every operand, while it is evaluated, calls Evaluate of the enclosing union at another point - far from everything / inside the scene / at an operand / the same point - to depth 2..3, then returns its own value) and gated (an evaluation is parked inside an operand while another goroutine evaluates the same union completely, or up to its own operand with the first one finishing first), for 1, 2, 63, 64, 65, 100, 300 and random 2..7 operands, plain minimum and PolyMin, nested inner unions included; every value, outer and nested, must equal EvaluateSlow of a second union built from the plain operands and the fold of the operand values (exactly / same sign with a blend), a subset also goes through the Gallina model. union layouts (random and seam) scaled by 2^-40..2^40 and 1e-12..1e12, and ulp seams (a box whose face is within ulps / 1e-15..1e-9 of the value of the disc with the closest box, both sides, both operand orders, scales 1e-9..1e6). histories on ONE union value (history.go): Evaluate / EvaluateSlow / SetMin(PolyMin, RoundMin, ChamferMin, ExpMin, PowMin, math.Min) / SetMin on the inner union of a nested union, over a pool of points (same point twice in a row, around a SetMin, alternating, +0/-0 variants), points preferred where the configurations differ in sign (fillets at concave corners); every answer against unions built from scratch in the configuration of that step (Evaluate, EvaluateSlow, fold; bit-exact with the default minimum, same sign with a blend). plain-minimum comparisons are bit-exact where the minimising operands satisfy value >= box distance for the computed float64 numbers, within 1e-9 where they miss it by rounding and two values tie (hypLevel). exact seams: overlapping layouts on a 1/8 grid queried on the boundary of one operand (value exactly 0) inside the box of another, incl. touching / nested / identical / concentric operands. non-trivial = every case (each has a distinct position class/operand layout/schedule); distinct by exact input bits."
+	r.Rule = "boxes x points covering all 5x5(x5) position classes per axis (below / on min / inside / on max / above; degenerate boxes included) in a dyadic-exact regime (results compared EXACTLY with the rational clamp specification) and a rounding regime (relative 1e-12); Interval.Overlap on every ordering of endpoints in {0,1,2,3} and (scales.go) on pairs whose facing end points differ by 0, +-1/2/3/16 ulps, +-1e-15..1e-9 relative and absolute, +-25% and +300%, at every decade 1e-12..1e12: adjacent (positive, mirrored negative, around +0/-0 with denormal gaps), point intervals, nested, nearly identical, and pairs produced by Box2/Box3.MinMaxDist2 of a near and a farther (also flat / point) box with the same perturbations; judged in both orders by the exact rational share-a-value specification here and again inside coqc (float model, rational model, max-lo <= min-hi); MinMaxDist2 also at scales 2^-40..2^40 (dyadic-exact: equal to the rational clamp specification) and 1e-12..1e12 and one scale per axis, with the position classes k ulps below/above min/max next to the five classes (a true distance of 0 must be reported as 0); unions of 2..7 translated circles/boxes (nested, overlapping, far apart) at random / dyadic / far / box-corner points with the plain minimum (pruned must equal exhaustive exactly) and PolyMin(k) for k in 0.01..1000 (same sign). the same generators with 63, 64, 65, 100 and 300 operands (sizes an implementation may treat differently). ABSENT OPERANDS (nil-args strata): the same layouts / points / blends / nested and empty operands / operand counts with nil arguments in the Union2D call - leading, trailing, one interior gap, every gap, random subsets of the gaps with runs of 1..3 - pruned = exhaustive = fold over the non-nil operands (and the model on the stripped list), and Evaluate, EvaluateSlow and the bounding box bit for bit those of the same call without the nil arguments. union/overlap strata: two or more evaluations of ONE union overlapping in time, made deterministic with operands defined in the harness (harness/concshapes/probe.go): re-entrant (every operand, while it is evaluated, calls Evaluate of the enclosing union at another point - far from everything / inside the scene / at an operand / the same point - to depth 2..3, then returns its own value) and gated (an evaluation is parked inside an operand while another goroutine evaluates the same union completely, or up to its own operand with the first one finishing first), for 1, 2, 63, 64, 65, 100, 300 and random 2..7 operands, plain minimum and PolyMin, nested inner unions included; every value, outer and nested, must equal EvaluateSlow of a second union built from the plain operands and the fold of the operand values (exactly / same sign with a blend), a subset also goes through the Gallina model. union layouts (random and seam) scaled by 2^-40..2^40 and 1e-12..1e12, and ulp seams (a box whose face is within ulps / 1e-15..1e-9 of the value of the disc with the closest box, both sides, both operand orders, scales 1e-9..1e6). histories on ONE union value (history.go): Evaluate / EvaluateSlow / SetMin(PolyMin, RoundMin, ChamferMin, ExpMin, PowMin, math.Min) / SetMin on the inner union of a nested union, over a pool of points (same point twice in a row, around a SetMin, alternating, +0/-0 variants), points preferred where the configurations differ in sign (fillets at concave corners); every answer against unions built from scratch in the configuration of that step (Evaluate, EvaluateSlow, fold; bit-exact with the default minimum, same sign with a blend). plain-minimum comparisons are bit-exact where the minimising operands satisfy value >= box distance for the computed float64 numbers, within 1e-9 where they miss it by rounding and two values tie (hypLevel). exact seams: overlapping layouts on a 1/8 grid queried on the boundary of one operand (value exactly 0) inside the box of another, incl. touching / nested / identical / concentric operands. non-trivial = every case (each has a distinct position class/operand layout/schedule); distinct by exact input bits."
 	r.Trusted = append(r.Trusted, "hand model coq/Geo/Box.v, coq/Sdf/Union2.v tied by differential execution at FOps (bit-exact expected, 1e-12 relative tolerated) and by the exact QOps clamp specification",
 		"Coq port of Go math.Min/Max/Abs (coq/Num/GoMath.v)")
 	r.Assumptions = append(r.Assumptions, "union theorem hypotheses (operand value >= distance to its box outside it, solid point inside the box, 1-Lipschitz) are C01/C03 facts about the operands; here operands are translated circles and boxes",
